@@ -226,6 +226,12 @@ class Form(Node):
                 else:
                     H = M / (e - 1)
 
+            if abs(H) > np.arcsinh(abs(M) / e) + 10:
+                # The first guesses above overflow sinh/cosh for large |M|
+                # (NaN result). e.sinh(H) - H = M implies |H| > arcsinh(|M|/e),
+                # from which the Newton iteration converges monotonically
+                H = np.arcsinh(M / e)
+
             def next_H(H, e, M):
                 return H + (M - e * sinh(H) + H) / (e * cosh(H) - 1)
 
